@@ -1083,6 +1083,15 @@ func (u *Unit) callInterfaceMethod1(c *ast.CallExpr, se *ast.SelectorExpr, sel *
 	}
 	args := u.evalArgs(c, sig, env)
 	key := "(" + iname + ")." + m.Name()
+	mode := u.dispatchMode(iname)
+	if mode == "force" {
+		if outs, ok := u.dispatchIface(c, se, sel, m, recv, args, env); ok {
+			return outs
+		}
+	}
+	if mode == "off" && u.effectfulCallbacks() {
+		return u.opaqueIfaceEvent(c, se, iname, m, recv, args, env)
+	}
 	if fi := u.Prog.Funcs[key]; fi != nil {
 		if blk := u.Prog.Contracts.Get(key, ""); blk != nil {
 			return u.callByContract(c, fi, blk, &recv, args, env)
@@ -1091,6 +1100,9 @@ func (u *Unit) callInterfaceMethod1(c *ast.CallExpr, se *ast.SelectorExpr, sel *
 	if blk := u.Prog.Contracts.Get(key, ""); blk != nil {
 		blk.Bound = true
 		return u.callIfaceByContract(c, key, blk, m, recv, args, env)
+	}
+	if outs, ok := u.dispatchIface(c, se, sel, m, recv, args, env); ok {
+		return outs
 	}
 	if isErrorType(sel.Recv()) && m.Name() == "Error" {
 		u.D.Fun("err_msg", SStr, SErr)
@@ -1199,4 +1211,102 @@ func (u *Unit) pureLitAxiom(lit *ast.FuncLit, sig *types.Signature, clo Term, bl
 		return
 	}
 	env.assume(Forall(bvs, body, lhs))
+}
+
+// dynamic dispatch on an interface declared in the repository: one branch per implementing struct type (value receiver) whose
+// method has a contract - the call is then by that contract on the unboxed receiver - plus a catch-all branch for every other
+// dynamic type (the method as an uninterpreted deterministic function)
+func (u *Unit) dispatchIface(c *ast.CallExpr, se *ast.SelectorExpr, sel *types.Selection, m *types.Func, recv Value, args []Value, env *Env) ([]Outcome, bool) {
+	it, ok := types.Unalias(sel.Recv()).Underlying().(*types.Interface)
+	if !ok || m.Pkg() == nil || !strings.Contains(m.Pkg().Path(), "TeaEntityLab") || recv.Sort != SVal {
+		return nil, false
+	}
+	if u.dispatchMode(typeNameOf(sel.Recv())) == "off" {
+		return nil, false
+	}
+	type impl struct {
+		fi  *FuncInfo
+		blk *Block
+		ty  types.Type
+	}
+	var impls []impl
+	var keys []string
+	for k := range u.Prog.Funcs {
+		keys = append(keys, k)
+	}
+	sort.Strings(keys)
+	for _, k := range keys {
+		fi := u.Prog.Funcs[k]
+		if fi.Obj.Name() != m.Name() || fi.Pkg.Types != m.Pkg() {
+			continue
+		}
+		rv := fi.Obj.Type().(*types.Signature).Recv()
+		if rv == nil {
+			continue
+		}
+		named, ok := types.Unalias(rv.Type()).(*types.Named)
+		if !ok {
+			continue
+		}
+		if _, isStruct := named.Underlying().(*types.Struct); !isStruct {
+			continue
+		}
+		ms := types.NewMethodSet(named)
+		all := true
+		for i := 0; i < it.NumMethods(); i++ {
+			if ms.Lookup(it.Method(i).Pkg(), it.Method(i).Name()) == nil {
+				all = false
+			}
+		}
+		if !all {
+			continue
+		}
+		blk := u.Prog.Contracts.Get(fi.Key, "")
+		if blk == nil {
+			continue
+		}
+		impls = append(impls, impl{fi, blk, named})
+	}
+	if len(impls) == 0 {
+		return nil, false
+	}
+	u.safety(env, "nil", c.Pos(), u.exprText(se.X)+" (interface method call)", Not(u.untyped(recv.Term)))
+	var outs []Outcome
+	rest := env
+	for _, im := range impls {
+		e := rest.clone()
+		okT, rv := u.typeAssert(e, recv, im.ty)
+		if okT.S == "false" {
+			continue
+		}
+		e.assume(okT)
+		outs = append(outs, u.callByContract(c, im.fi, im.blk, &rv, args, e)...)
+		u.adoptDecls(rest, e)
+		rest.assume(Not(okT))
+	}
+	// every other dynamic type
+	iname := typeNameOf(sel.Recv())
+	sig := m.Type().(*types.Signature)
+	u.assumeUsed("interface method (" + iname + ")." + m.Name() + " of a type without a contract is a deterministic function of receiver and arguments with no heap effect")
+	argSorts := []Sort{recv.Sort}
+	argTerms := []Term{recv.Term}
+	for _, a := range args {
+		argSorts = append(argSorts, a.Sort)
+		argTerms = append(argTerms, a.Term)
+	}
+	var vals []Value
+	for i := 0; i < sig.Results().Len(); i++ {
+		rt := sig.Results().At(i).Type()
+		rs := u.sortOf(rt)
+		name := fmt.Sprintf("dyn_%s_%s_%d", iname, m.Name(), i)
+		u.D.Fun(name, rs, argSorts...)
+		v := u.define(rest, "dyn", App(name, rs, argTerms...))
+		if rs == SSlice {
+			u.assumeGround(rest, u.validSliceT(v))
+		}
+		u.knownRefsOf(rest, v)
+		vals = append(vals, Value{v, rt})
+	}
+	outs = append(outs, ret(rest, vals...)...)
+	return outs, true
 }
